@@ -75,7 +75,7 @@ def gen_universe(r):
         s0, g0, fixed = spec.binary_root(r, named0)
         m0 = ModInfo(0, U.PREFIX + 'g0' if named0 else None, None, s0, g0)
         m0.fixed_texts = fixed
-    elif x0 < 0.25:
+    elif x0 < 0.30:
         # the feature-rich fixed grammar: clients of one run meet in the same runtime helpers
         s0, g0, fixed = spec.tour_root(r, named0)
         m0 = ModInfo(0, U.PREFIX + 'g0' if named0 else None, None, s0, g0)
@@ -230,7 +230,12 @@ class Planner:
         if text and wr.random() < 0.2:
             pos = wr.randrange(0, min(len(text), 6))
         full = wr.random() < 0.8
-        op = {'op': 'parse', 'mod': mid, 'entry': entry, 'text': m.wire(text), 'pos': pos, 'full': full}
+        wired = m.wire(text)
+        if wr.random() < 0.03:
+            # input of the other kind (bytes for a text grammar, str for a binary one): a legitimate
+            # call with its own outcome (usually TypeError), after which nothing may have changed
+            wired = text if m.binary else ['bytes', text.encode('latin-1', 'replace').decode('latin-1')]
+        op = {'op': 'parse', 'mod': mid, 'entry': entry, 'text': wired, 'pos': pos, 'full': full}
         rec = self.ref(op)
         fired = rec['fired']
         steps = rec['steps']
@@ -441,18 +446,18 @@ class Planner:
             pol = {'kind': 'sequential'} if (n_clients == 1 or sr.random() < 0.5) else {'kind': 'op-interleave'}
         else:
             x = sr.random()
-            if x < 0.05:
+            if x < 0.04:
                 pol = {'kind': 'sequential'}
-            elif x < 0.2:
+            elif x < 0.16:
                 pol = {'kind': 'op-interleave'}
-            elif x < 0.55:
+            elif x < 0.44:
                 pol = {'kind': 'bernoulli', 'p': sr.choice([1e-3, 1e-2, 1e-2, 1e-1])}
-            elif x < 0.65:
+            elif x < 0.56:
                 pol = {'kind': 'pct', 'd': sr.choice([1, 2, 3]), 'expected': expected}
-            elif x < 0.75:
+            elif x < 0.64:
                 pol = {'kind': 'first-visit', 'q': sr.choice([0.05, 0.2, 0.5])}
-            elif x < 0.87:
-                pol = {'kind': 'one-shot', 'j': sr.randint(1, 60)}
+            elif x < 0.84:
+                pol = {'kind': 'one-shot', 'j': sr.randint(1, 90)}
             else:
                 pol = {'kind': 'targeted', 'q': sr.choice([0.1, 0.3, 0.6])}
         pol['seed'] = rngm.derive('policy', self.seed)
